@@ -320,6 +320,9 @@ def marker_names(chk, rule, sym, sib):
         decided = True
         anchor = next((st for st in branch if isinstance(st, ast.For)), branch[0] if branch else cfg.func)
         for desc, ok, detail in res:
+            if "set iteration order" in desc:
+                chk.ob(rule, cfg.module, anchor, f"SubqueryMarker: {desc}", ok, f"the text of a SQL subquery is not deterministic: {detail}")
+                continue
             chk.ob(rule, cfg.module, anchor, f"SubqueryMarker: visible columns keep their names ({desc})", ok,
                    f"a SQL subquery renames a *visible* column to resolve a name collision with a hidden one: {detail}. With "
                    "alias(keep_col_refs=True) exported names change and a later mutate that overwrites the name no longer replaces the column")  # fmt: skip
